@@ -669,11 +669,19 @@ class Gen(object):
       ["UpdateRecord", tid, -7, {}],
       ["ModifyColumn", tid, "nosuchcol", {"type": "Int"}],
       ["NoSuchAction", 1],
+      ["AddColumn", tid, "badtype%d" % rng.randint(0, 99), {"type": rng.choice(["Foo", "Ref:", "RefList:NoSuchTable", ""]), "isFormula": False}],
+      ["AddColumn", tid, "nulf%d" % rng.randint(0, 99), {"type": "Any", "isFormula": True, "formula": "1 +\x00 2"}],
       ["AddOrUpdateRecord", tid, {}, {}, {}],
       ["AddOrUpdateRecord", tid, {"nosuchcol": 1}, {}, {}],
     ]
     if fc and rows:
       opts.append(["UpdateRecord", tid, rows[0], {fc[0]["colId"]: 5}])
+    if t and w.data_cols(t):
+      c0 = rng.choice(w.data_cols(t))
+      opts.append(["ModifyColumn", tid, c0["colId"], {"type": rng.choice(["Foo", "Ref:", "Bogus:1"])}])
+      opts.append(["ModifyColumn", tid, c0["colId"], {"formula": "foo(\x00"}])
+      opts.append(["ApplyDocActions", [["RenameColumn", tid, c0["colId"], "class"]]])
+      opts.append(["ApplyDocActions", [["AddColumn", tid, "for", {"type": "Int", "isFormula": False, "formula": ""}]]])
     if t and w.data_cols(t):
       c = w.data_cols(t)[0]
       # a valid action followed by an invalid one: "later action fails after earlier ones succeeded"
